@@ -444,8 +444,8 @@ pub fn run(run: &mut Run) -> Finish {
     let st5 = statements(&small);
     let ns5 = st5.len() as u64;
     let n5 = n_seq_upto(ns5, 2) - 1;
-    let max5 = tier.pick(3usize, 4);
-    run.par_slice("unaligned tokens: programs of 1..2 statements over {a, é, a𝒜} + the string statement, every subset of <= 3/4 columns from (candidate columns + every column inside a surrogate pair) that contains an unaligned one; the aligned tokens must be read exactly as without it", 5, n5, |idx, l| {
+    let max5 = 4usize;
+    run.par_slice("unaligned tokens: programs of 1..2 statements over {a, é, a𝒜} + the string statement, every subset of <= 4 columns from (candidate columns + every column inside a surrogate pair) that contains an unaligned one; the aligned tokens must be read exactly as without it", 5, n5, |idx, l| {
         let picks = seq_upto_unrank(ns5, 2, (idx & ((1 << 40) - 1)) + 1);
         let mut sub = 0u64;
         let qn = query_names(&small);
